@@ -1,4 +1,5 @@
 from ..registry import Harness as H, Obligation as O, Property
+from .. import syntactic
 
 SC = "scanner.rs"
 hs = []
@@ -19,10 +20,10 @@ for nm0, s in SEPS:
     for extra in (0, 1, 2, 3):
         n = len(s) + extra
         nm = "sep_%s_x%d" % (nm0, extra)
-        quick = extra <= 2
+        quick = extra <= 1 or (extra == 2 and nm0 in ("sp", "crlf", "cmt_lf", "cmt_cr"))
         add(nm, "10.a", "separator_skip!(%s, %d, %d, %s, %d);" % (nm, n, len(s), sep_lit(s), n + 3),
             tier="quick" if quick else "thorough",
-            shape={"separator": repr(s), "suffix_bytes": extra, "alphabet": "ASCII + 2-byte UTF-8"},
+            shape={"separator": repr(s), "suffix_bytes": extra, "alphabet": "ASCII + 2-/3-byte UTF-8"},
             contract_stubs=["scan_number/scan_identifier_or_keyword/scan_string -> deterministic models (run to next whitespace)"],
             replay="c10_layout")
 for which, rn in ((0, "number"), (1, "ident"), (2, "string")):
@@ -63,6 +64,7 @@ PROP = Property(
           "separator runs of 1..2 bytes from {space, tab, LF, CR}"),
     ],
     harnesses=hs,
+    pre_checks=[syntactic.parser_reads_tokens_only],
     assumptions=[
         "10.a + 10.a' give, by induction over tokens, identical token streams for two layouts of the same token sequence; the induction itself is an argument, not a check",
         "the parser half of the property (statement boundaries from token kinds only, redundant parentheses) is established syntactically: the driver checks on the current source that parser.rs reads the lexer only through the token iterator (recorded as a note), it is not solver-checked",
